@@ -705,23 +705,27 @@ def g_swt_module(JMAX, mode, waveform='wavelet'):
 
     def rule_for(side):
         def rule(it, node, rng, env):
+            from .modules_dwt import loop_state
             c = ctx()
-            side.rec.append(('init', env['ll'], env['coeffs'], rng))
-            T0 = env['ll']
+            tv, lv = loop_state(node, env, 'll', 'coeffs')
+            if tv is None or lv is None:
+                raise Unsupported('level loop without a carried tensor and an accumulating list')
+            side.rec.append(('init', env[tv], env[lv], rng))
+            T0 = env[tv]
             saved = dict(env)
             for jc in range(JMAX):
                 e2 = dict(saved)
                 dims = _fresh_dims('n', 2)
                 A = CD.data_tensor('A', tuple(T0.shape[:2]) + tuple(dims))
                 pre = SList(jc, 'Y')
-                e2['ll'] = A
-                e2['coeffs'] = pre
+                e2[tv] = A
+                e2[lv] = pre
                 it.assign(node.target, jc, e2)
                 it.run(node.body, e2)
-                side.rec.append(('step', jc, A, e2['ll'], e2['coeffs'], pre))
-            env['coeffs'] = SList(Jv, 'Y')
-            env['ll'] = None
-            side.exit = env['coeffs']
+                side.rec.append(('step', jc, A, e2[tv], e2[lv], pre))
+            env[lv] = SList(Jv, 'Y')
+            env[tv] = None
+            side.exit = env[lv]
         return rule
 
     def run():
